@@ -3,7 +3,12 @@
 /repo/baize (consistently, including uses inside nested closures) in a scratch copy and run all checks on it.
 Every check must stay silent (exit 0): a rule that keys on a local's *name* is a frozen-text rule.
 
-usage: rename_locals.py [--suffix _rn] [--keep]
+Further behaviour-preserving transformations (--mode):
+  unparse   every file is re-emitted by ast.unparse (formatting, comments, parentheses, quote style, line numbers change)
+  flip      every `if c: A else: B` statement with a non-empty else and no elif becomes `if not (c): B else: A`
+  all       rename + flip + unparse together
+
+usage: rename_locals.py [--suffix _rn] [--keep] [--mode rename|unparse|flip|all]
 """
 from __future__ import annotations
 
@@ -122,8 +127,32 @@ def rename_source(src: str, suffix: str) -> str:
     return out
 
 
+class _Flip(ast.NodeTransformer):
+    def visit_If(self, node: ast.If):
+        self.generic_visit(node)
+        if node.orelse and not (len(node.orelse) == 1 and isinstance(node.orelse[0], ast.If)):
+            # docstring-like first statements are not an issue inside if bodies
+            return ast.copy_location(ast.If(test=ast.UnaryOp(op=ast.Not(), operand=node.test), body=node.orelse, orelse=node.body), node)
+        return node
+
+
+def flip_source(src: str) -> str:
+    tree = ast.parse(src)
+    tree = ast.fix_missing_locations(_Flip().visit(tree))
+    out = ast.unparse(tree)
+    compile(out, "<flipped>", "exec")
+    return out
+
+
+def unparse_source(src: str) -> str:
+    out = ast.unparse(ast.parse(src))
+    compile(out, "<unparsed>", "exec")
+    return out
+
+
 def main():
     ap = argparse.ArgumentParser()
+    ap.add_argument("--mode", default="rename", choices=["rename", "unparse", "flip", "all"])
     ap.add_argument("--suffix", default="_rn")
     ap.add_argument("--keep", action="store_true")
     ap.add_argument("--repo", default="/repo")
@@ -137,11 +166,17 @@ def main():
                 if f.endswith(".py"):
                     pth = os.path.join(dp, f)
                     src = open(pth).read()
-                    new = rename_source(src, a.suffix)
+                    new = src
+                    if a.mode in ("rename", "all"):
+                        new = rename_source(new, a.suffix)
+                    if a.mode in ("flip", "all"):
+                        new = flip_source(new)
+                    if a.mode in ("unparse", "all"):
+                        new = unparse_source(new)
                     if new != src:
                         n += 1
                         open(pth, "w").write(new)
-        print(f"renamed locals in {n} files under {tmp}")
+        print(f"mode={a.mode}: transformed {n} files under {tmp}")
         checks = [c["property_id"] for c in json.load(open(os.path.join(VERIF, "MANIFEST.json")))["checks"]]
         env = dict(os.environ, BAIZE_REPO=tmp, BAIZE_VERIF_OUT=os.path.join(tmp, "_out"))
         bad = 0
